@@ -103,19 +103,32 @@ def run(ctx):
                 tstar = dot([x - y for x, y in zip(p, s)], es) / len_sq
                 # t* is the stationary point of |start + (end-start) t - p|^2 (own derivation: derivative in t vanishes)
                 ctx.same(key + '/tstar-stationary', dot(es, [s[i] + es[i] * tstar - p[i] for i in range(d)]), C(0), 'alg=: the unclamped parameter is the stationary point of the squared distance along the line', w)
-                t = minmax('min', minmax('max', tstar, C(0)), C(1))
-                proj = [s[i] + es[i] * t for i in range(d)]
+                tmm = minmax('min', minmax('max', tstar, C(0)), C(1))
                 paths = feasible_paths(rs)
-                ctx.ob(key + '/two-outcomes', len(paths) == 2 and all(q.out == 'ret' for q in paths), 'paths: degenerate-length guard and the general case', w, 2, len(paths))
+                ctx.ob(key + '/returns', len(paths) >= 2 and all(q.out == 'ret' for q in paths), 'paths: every path returns (degenerate-length guard + the general case)', w, '>= 2 returning paths', [(q.out, str(q.panic)) for q in paths if q.out != 'ret'][:2])
+                seen = set()
                 for i, q in enumerate(paths):
                     if q.out != 'ret': continue
                     conds = nonconst_conds(q)
-                    if len(conds) == 1 and conds[0] == degenerate: exp = s
-                    elif len(conds) == 1 and conds[0] == degenerate.neg(): exp = proj
+                    rest = [c for c in conds if not (c == degenerate or c == degenerate.neg())]
+                    if any(c == degenerate for c in conds) and not rest:
+                        exp = s; seen.add('degenerate')
+                    elif any(c == degenerate.neg() for c in conds):
+                        # the clamp of t* to [0,1]: written with min/max (no further decision) or with comparisons of t* against 0 and 1
+                        below = any(c == lt(tstar, C(0)) or c == le(tstar, C(0)) for c in rest)
+                        above = any(c == gt(tstar, C(1)) or c == ge(tstar, C(1)) for c in rest)
+                        inside = any(c == gt(tstar, C(0)) or c == ge(tstar, C(0)) for c in rest) and any(c == lt(tstar, C(1)) or c == le(tstar, C(1)) for c in rest)
+                        other = [c for c in rest if not any(c == f_(tstar, C(v)) for f_ in (lt, le, gt, ge) for v in (0, 1))]
+                        if other:
+                            ctx.ob('%s/path%d/decision' % (key, i), False, 'paths: the only decisions are the degenerate-length test and the clamp of the parameter to [0,1]', w, 'comparisons of t* with 0 and 1', [str(c) for c in other]); continue
+                        g = C(0) if below else C(1) if above else tstar if inside else tmm
+                        seen.add('below' if below else 'above' if above else 'inside' if inside else 'clamp')
+                        exp = [s[j] + es[j] * g for j in range(d)]
                     else:
-                        ctx.ob('%s/path%d/decision' % (key, i), False, 'paths: the only decision is the degenerate-length test', w, str(degenerate), [str(c) for c in conds]); continue
+                        ctx.ob('%s/path%d/decision' % (key, i), False, 'paths: the first decision is the degenerate-length test', w, str(degenerate), [str(c) for c in conds]); continue
                     if k == 'seg_proj': vec_eq(ctx, '%s/path%d' % (key, i), q.ret, exp, 'alg=: projected point = start + (end - start) * clamp01(t*) (start for a degenerate segment)', w)
                     else: ctx.same('%s/path%d' % (key, i), q.ret, dist(exp, p), 'alg=: distance_to_point = distance(projected_point(p), p)', w)
+                ctx.ob(key + '/outcomes', 'degenerate' in seen and ('clamp' in seen or {'below', 'inside', 'above'} <= seen), 'paths: the degenerate case and the whole clamp are covered', w, 'degenerate + clamp (or below/inside/above)', sorted(seen))
             elif k == 'seg_conv':
                 a = vs('a0', d); b = vs('a1', d)
                 vec_eq(ctx, key, rs.only().ret, a + b + a + b + [fn('toint:i64', x) for x in a + b], 'perm: From<Range>, into_range, as_ keep start/end', w)
